@@ -6,7 +6,7 @@ the REAL argv is observed where the property says it is observed: the argument v
 `Job(task, submitter).environment.execute(job)` -> `ShellTask._command_args(job.inputs)`;
 the oracle is `spec.shell.argv_ref` (all admissible readings of the property text / docs).
 
-This module also holds the native harness shared with C23 / C24 (`Harness`, `run_cases`).
+This module also holds the native harness shared with C23..C26 (`Harness`, `Runner`, `Agg`).
 """
 
 from __future__ import annotations
@@ -23,7 +23,6 @@ from pathlib import Path
 
 import spec.shell as S
 
-PID = "C22"
 NAMES = ["a", "b", "c", "d"]
 POSITIONS = [None, 1, 2, -1, -2]
 
